@@ -28,7 +28,7 @@ def run(ctx, replay):
     tr = os.path.join(ctx.scratch, "repl.ndjson")
     scr = os.path.join(ctx.scratch, "scr-repl")
     os.makedirs(scr, exist_ok=True)
-    nh, nt, steps = (600, 200, 100) if thorough else (80, 30, 70)
+    nh, nt, steps = (600, 300, 100) if thorough else (80, 60, 70)
     summ, rc, _ = ctx.run_vdrive(["repl", "--seed", ctx.seed, "--histories", nh, "--tailloss", nt, "--steps", steps,
                                   "--out", tr, "--scratch", scr], timeout=3000)
     for u in summ["unresolved"]:
@@ -38,7 +38,12 @@ def run(ctx, replay):
     ctx.extra["events"] = summ["events"]
     ctx.extra["histories_without_tail_loss"] = nh
     ctx.extra["histories_with_tail_loss"] = nt
-    vcore.validate_all(ctx, "ReplicationTrace", "ReplicationTrace.cfg", tr, describe=describe, dfs=False,
+    # pass 1 -- conformance: every recorded step is a step of the transcribed protocol (a history is examined to
+    # its end even when it contains the tail-loss known findings, so they cannot mask a later deviation)
+    vcore.validate_all(ctx, "ReplicationTrace", "ReplicationTrace_conf.cfg", tr, describe=describe, dfs=False,
+                       max_rejections=nt + 8)
+    # pass 2 -- the properties on every state of the conforming histories
+    vcore.validate_all(ctx, "ReplicationTrace", "ReplicationTrace.cfg", ctx.accepted_path, describe=describe, dfs=False,
                        max_rejections=nt + 8)
 
     def wrong_follower_byte(lines):
